@@ -19,8 +19,8 @@ func init() {
 	register(&simk.Prop{
 		ID:    "C21",
 		Level: "exploration",
-		Rule: "seeded state-sync runs against the real snow.VM over the recording test chain: a network chain of 3..10 blocks with side branches (valid blocks, invalid blocks, valid-looking descendants of invalid blocks); the node starts state sync at a target, the simulated engine keeps parsing / 'verifying' (skipped while syncing) / accepting / rejecting blocks after the target while sync runs, and a separate task finishes the sync at a target equal to or behind the accepted tip at a scheduler-chosen moment; afterwards processing blocks are resolved in a seeded order; " +
-			"oracle: the chain re-executes exactly the blocks between the finish target and the accepted tip, in order, from the synced state; every still-processing block is re-verified once against its parent's output (valid => verified; invalid or descendant of invalid => unverified); the health check fails exactly while a failed processing block is unresolved; accepting an unverified block errors; final accepted notifications/lookups equal the executing reference. non-trivial = >=1 block accepted during sync and >=1 processing block at finish; distinct = (scenario, schedule) hashes",
+		Rule: "seeded state-sync runs against the real snow.VM over the recording test chain: a network chain of 3..10 blocks with side branches (valid blocks, invalid blocks, valid-looking descendants of invalid blocks); the node starts state sync at a target, the simulated engine keeps parsing / 'verifying' (skipped while syncing) / accepting / rejecting blocks after the target while sync runs, and a separate task finishes the sync at a target equal to or behind the accepted tip at a scheduler-chosen moment, while a monitoring task polls the health check (block re-execution inside FinishStateSync is a scheduling point); afterwards processing blocks are resolved in a seeded order; " +
+			"oracle: the chain re-executes exactly the blocks between the finish target and the accepted tip, in order, from the synced state; every still-processing block is re-verified once against its parent's output (valid => verified; invalid or descendant of invalid => unverified); the health check fails exactly while a failed processing block is unresolved, also when polled in the middle of the hand-over; accepting an unverified block errors; final accepted notifications/lookups equal the executing reference. non-trivial = >=1 block accepted during sync and >=1 processing block at finish; distinct = (scenario, schedule) hashes",
 		Exec: c21,
 		Real: []string{"snow.VM StartStateSync / FinishStateSync / verifyProcessingBlocks / reprocessFromOutputToInput", "snow health checks", "snow.StatefulBlock Verify/Accept/Reject in not-ready mode", "async accepter"},
 		Stub: []string{"consensus engine", "state sync client (a task calling FinishStateSync with the target's output)", "chain (recording test chain)", "chain index (in-memory)", "goroutine scheduling"},
@@ -122,6 +122,39 @@ func c21(r *simk.Run) *simk.Violation {
 			close(finished)
 		}
 		finishStarted := false
+		// a monitoring client polls the health check while the node syncs and hands over
+		chain.IO = func(what string, h uint64) { s.Yield(what, h) }
+		s.Go("health.monitor", 0, func() {
+			for i := 0; i < 8; i++ {
+				s.Yield("health.monitor", uint64(i))
+				select {
+				case <-finished:
+					return
+				default:
+				}
+				_, herr := vm.HealthCheck(ctx)
+				select {
+				case <-finished:
+					return
+				default:
+				}
+				if herr != nil {
+					continue
+				}
+				s.Probe("health_polled_healthy_before_handover_returned")
+				bad := 0
+				for _, p := range processing {
+					if !p.wantValid {
+						bad++
+					}
+				}
+				if !finishStarted {
+					fail("healthy-while-syncing", "health check passes while state sync is still running; trace=%v", trace)
+				} else if bad > 0 {
+					fail("healthy-with-failed-processing-block", "health check passes in the middle of FinishStateSync although %d processing blocks cannot be verified; trace=%v", bad, trace)
+				}
+			}
+		})
 		nOps := 1 + c.Intn(14)
 		for op := 0; op < nOps && viol == nil && !s.Failed(); op++ {
 			select {
